@@ -467,6 +467,24 @@ def register_handlers(op: Operator, specs: list[dict[str, Any]]) -> None:
             run.sim.log('login', op.actor, op.sessions[-1].token + '(again)')
             run.logins.append((run.sim.now, op.actor, op.sessions[-1].token))
             return op.last_credentials
+        if op.spec.get('login_alternates'):
+            # a login handler with two identities (a stale token source): A, B, A, B, ... -- the very same credentials
+            # objects are offered again; those already invalidated must be refused, however long ago that was
+            pool: list[Any] = op.__dict__.setdefault('cred_pool', [])
+            k = op.__dict__.get('login_calls', 0) % 2
+            op.__dict__['login_calls'] = op.__dict__.get('login_calls', 0) + 1
+            if len(pool) > k:
+                tok = pool[k].aiohttp_session.token
+                run.sim.log('login', op.actor, tok + '(again)')
+                run.logins.append((run.sim.now, op.actor, tok))
+                op.last_credentials = pool[k]
+                return pool[k]
+            session = op.new_session()
+            run.sim.log('login', op.actor, session.token)
+            run.logins.append((run.sim.now, op.actor, session.token))
+            op.last_credentials = kopf.AiohttpSession(server='http://sim', aiohttp_session=session)  # type: ignore[arg-type]
+            pool.append(op.last_credentials)
+            return op.last_credentials
         fails_from = op.spec.get('login_fails_from')
         if fails_from is not None and op.logins >= fails_from:
             run.sim.log('login-failed', op.actor)
@@ -995,7 +1013,9 @@ class Run:
                 sim.stall_loop(op.loop, a['dur'])
             elif do == 'revoke':
                 for s in op.sessions:
-                    s.revoked = True
+                    if not s.revoked:
+                        s.revoked = True
+                        s.revoked_at = sim.now  # type: ignore[attr-defined]
                 sim.count('fault.revoke')
         elif do == 'create':
             rd = self.rdef(a.get('kind', 'widgets'))
